@@ -274,7 +274,14 @@ pub fn elem_text(e: &GenElem) -> String {
         }
         100 => format!("/begin IF_DATA {} 1 2 /end IF_DATA", e.name),
         101 => format!("/begin USER_RIGHTS {} /end USER_RIGHTS", e.name),
-        102 => "/begin A2ML\n block \"IF_DATA\" taggedunion { \"X\" struct { int; }; };\n/end A2ML".to_string(),
+        // an A2ML block the A2ML parser accepts, one without `block "IF_DATA"` and one that does not parse at all (both
+        // are kept as raw text with a warning in non-strict loading)
+        102 => [
+            "/begin A2ML\n block \"IF_DATA\" taggedunion { \"X\" struct { int; }; };\n/end A2ML",
+            "/begin A2ML\n struct NoIfData { uint; };\n/end A2ML",
+            "/begin A2ML\n block \"IF_DATA\" taggedunion {\n/end A2ML",
+        ][e.name.bytes().map(|b| b as usize).sum::<usize>() % 3]
+            .to_string(),
         103 => "/begin MOD_COMMON \"\" /end MOD_COMMON".to_string(),
         104 => "/begin MOD_PAR \"\" /end MOD_PAR".to_string(),
         105 => "/begin VARIANT_CODING /end VARIANT_CODING".to_string(),
@@ -298,7 +305,7 @@ pub fn random_module_elems(rng: &mut Rng, prefix: &str, max_elems: usize, with_c
     for single in [102, 103, 104, 105] {
         if rng.chance(1, 2) {
             let pos = rng.below(v.len() + 1);
-            v.insert(pos, GenElem { kind: single, name: String::new() });
+            v.insert(pos, GenElem { kind: single, name: if single == 102 { format!("{pos}") } else { String::new() } });
         }
     }
     for j in 0..rng.below(3) {
